@@ -34,4 +34,12 @@ def mayDiffer (cfg : Config) (peer : Option Ip) : Bool :=
 def unusableList (cfg : Config) : Bool :=
   !cfg.cidrs.isEmpty && cfg.cidrs.all (·.isNone)
 
+/-- The liberal reading used by the judge for entries that are not CIDRs: a bare address names at
+most that single host (an implementation accepting it as such is not faulted; one that turns it
+into a wider network is). The code as it stands ignores such entries, which is stricter. -/
+def bareHostAdmits (entries : List (List Char)) (peer : Option Ip) : Bool :=
+  match peer with
+  | none => false
+  | some a => entries.any fun e => (parseCidr e).isNone && parseIP e == some a
+
 end Pithos.ProxyTrust.Spec
